@@ -23,12 +23,13 @@ inductive Op where
   | inc (m : Nat) (s : Source) (a : Int)
   /-- VarzReceiver.SetVarz -/
   | set (m : Nat) (s : Source) (v : Int)
-  /-- VarzReceiver.RecordPercentileSample; `keep` = the reservoir's random draw fell below p -/
-  | sample (m : Nat) (s : Source) (v : Int) (keep : Bool)
+  /-- VarzReceiver.RecordPercentileSample at LOW_RESOLUTION_TIME_SOURCE.now = `now` (whole
+      seconds); `keep` = the reservoir's random draw fell below p -/
+  | sample (m : Nat) (s : Source) (v : Int) (keep : Bool) (now : Nat)
   /-- read VARZ_DATA[m].get(Source(..)) with a freshly built Source -/
   | get (m : Nat) (s : Source)
-  /-- VarzAggregator.Aggregate(VARZ_DATA, {the registered metrics among ms}) -/
-  | agg (ms : List Nat)
+  /-- VarzAggregator.Aggregate(VARZ_DATA, {the registered metrics among ms}) at time `now` -/
+  | agg (ms : List Nat) (now : Nat)
   deriving Repr, DecidableEq
 
 inductive Entry where
@@ -62,29 +63,29 @@ def typeOf (cfg : Cfg) (m : Nat) : Option VType :=
 def accepts (cfg : Cfg) : Op → Bool
   | .inc m _ _ => match typeOf cfg m with | some t => t.isCounterLike | none => false
   | .set m _ _ => match typeOf cfg m with | some t => decide (t = .gauge) | none => false
-  | .sample m _ _ _ => match typeOf cfg m with | some t => t.isPct | none => false
+  | .sample m _ _ _ _ => match typeOf cfg m with | some t => t.isPct | none => false
   | .get m _ => (typeOf cfg m).isSome
-  | .agg _ => true
+  | .agg _ _ => true
 
 def stepSt (cfg : Cfg) (st : St) (op : Op) : St :=
   if accepts cfg op then
     match op with
     | .inc m s a => upd (m, s) (incCell a) st
     | .set m s v => upd (m, s) (setCell v) st
-    | .sample m s v keep => upd (m, s) (sampleCell cfg.cap keep v) st
+    | .sample m s v keep now => upd (m, s) (sampleCell cfg.cap keep v now) st
     | _ => st
   else st
 
-def entriesOf (cfg : Cfg) (t : VType) (ser : List (Source × Cell)) : List Entry :=
+def entriesOf (cfg : Cfg) (now : Nat) (t : VType) (ser : List (Source × Cell)) : List Entry :=
   (aggKeys ser).map (fun K =>
-    if t.isPct then .pct K (aggCount K ser) (isort (mergedData K ser)) (aggPcts cfg.pcts K ser)
+    if t.isPct then .pct K (pctCount now K ser) (isort (mergedData K ser)) (aggPcts cfg.pcts now K ser)
     else .num K (aggTotal K ser) (aggCount K ser))
 
-def aggOut (cfg : Cfg) (ms : List Nat) (st : St) : List (Nat × List Entry) :=
+def aggOut (cfg : Cfg) (ms : List Nat) (now : Nat) (st : St) : List (Nat × List Entry) :=
   (metricsOf st).filterMap (fun m =>
     if ms.contains m then
       match typeOf cfg m with
-      | some t => some (m, entriesOf cfg t (seriesOf m st))
+      | some t => some (m, entriesOf cfg now t (seriesOf m st))
       | none => none
     else none)
 
@@ -93,13 +94,13 @@ def obsOf (cfg : Cfg) (st : St) (op : Op) : Obs :=
     match op with
     | .inc m _ _ => .n (nSeries m st)
     | .set m _ _ => .n (nSeries m st)
-    | .sample m _ _ _ => .n (nSeries m st)
+    | .sample m _ _ _ _ => .n (nSeries m st)
     | .get m s =>
       match lookup (m, s) st with
       | none => .val none
       | some (.num v) => .val (some v)
-      | some (.res _ _) => .bad
-    | .agg ms => .agg (aggOut cfg ms st)
+      | some (.res _ _ _) => .bad
+    | .agg ms now => .agg (aggOut cfg ms now st)
   else .bad
 
 def step (cfg : Cfg) (st : St) (op : Op) : St × Obs :=
@@ -152,9 +153,10 @@ def decCfg : List V → Option Cfg
 def decOp : List V → Option Op
   | [.a "inc", m, s, a] => do pure (.inc (← m.nat?) (← decSource s) (← a.int?))
   | [.a "set", m, s, v] => do pure (.set (← m.nat?) (← decSource s) (← v.int?))
-  | [.a "sample", m, s, v, k] => do pure (.sample (← m.nat?) (← decSource s) (← v.int?) (← k.bool?))
+  | [.a "sample", m, s, v, k, now] => do
+      pure (.sample (← m.nat?) (← decSource s) (← v.int?) (← k.bool?) (← now.nat?))
   | [.a "get", m, s] => do pure (.get (← m.nat?) (← decSource s))
-  | [.a "agg", ms] => do pure (.agg (← ms.natList?))
+  | [.a "agg", ms, now] => do pure (.agg (← ms.natList?) (← now.nat?))
   | _ => none
 
 def encKey (k : Key) : List V := [encOptNat k.1, encOptNat k.2]
@@ -204,16 +206,38 @@ def lastSet (m : Nat) (s : Source) : List Op → Option Int
   | .set m' s' v :: h => if m' = m ∧ s' = s then some v else lastSet m s h
   | _ :: h => lastSet m s h
 
-/-- the sources recorded against for metric `m` (with repetitions), oldest first -/
+/-- the sources recorded against for metric `m` (with repetitions), newest first -/
 def srcs (m : Nat) : List Op → List Source
   | [] => []
-  | .inc m' s _ :: h => if m' = m then srcs m h ++ [s] else srcs m h
-  | .set m' s _ :: h => if m' = m then srcs m h ++ [s] else srcs m h
-  | .sample m' s _ _ :: h => if m' = m then srcs m h ++ [s] else srcs m h
+  | .inc m' s _ :: h => if m' = m then s :: srcs m h else srcs m h
+  | .set m' s _ :: h => if m' = m then s :: srcs m h else srcs m h
+  | .sample m' s _ _ _ :: h => if m' = m then s :: srcs m h else srcs m h
   | _ :: h => srcs m h
 
-/-- the distinct sources recorded against for metric `m` -/
-def distinctSrcs (m : Nat) (h : List Op) : List Source := firstOcc (srcs m h)
+/-- number of samples recorded for metric `m` by a source equal to `s` -/
+def sampleCount (m : Nat) (s : Source) : List Op → Nat
+  | [] => 0
+  | .sample m' s' _ _ _ :: h => (if m' = m ∧ s' = s then 1 else 0) + sampleCount m s h
+  | _ :: h => sampleCount m s h
+
+/-- the time at which the reservoir of (`m`, `s`) last retained a sample: a sample is retained
+    when fewer than `cap` were recorded before it, or when the reservoir's draw said so -/
+def lastRetain (cap : Nat) (m : Nat) (s : Source) : List Op → Option Nat
+  | [] => none
+  | .sample m' s' _ keep now :: h =>
+    if m' = m ∧ s' = s then
+      (if sampleCount m s h < cap ∨ keep = true then some now else lastRetain cap m s h)
+    else lastRetain cap m s h
+  | _ :: h => lastRetain cap m s h
+
+/-- did the source retain a sample within the last MAX_AGG_AGE seconds before `now` -/
+def retainedRecently (cap : Nat) (m : Nat) (s : Source) (now : Nat) (h : List Op) : Bool :=
+  match lastRetain cap m s h with
+  | some t => decide (now - t < maxAggAge)
+  | none => false
+
+/-- the distinct sources recorded against for metric `m`, in order of first appearance -/
+def distinctSrcs (m : Nat) (h : List Op) : List Source := firstOcc (srcs m h).reverse
 
 def pctValid (pq : Nat × Nat) : Bool := decide (0 < pq.2) && decide (pq.1 ≤ pq.2)
 
@@ -230,8 +254,8 @@ def pctsOk (pcts : List (Nat × Nat)) (retained vals : List Int) : Bool :=
       !decide (a.1.1 * b.1.2 ≤ b.1.1 * a.1.2) ||
         decide (a.2 * (b.1.2 : Int) ≤ b.2 * (a.1.2 : Int)))))
 
-/-- what the property demands of one aggregated entry of metric `m` -/
-def entryOk (cfg : Cfg) (h : List Op) (m : Nat) (t : VType) : Entry → Bool
+/-- what the property demands of one entry of metric `m` aggregated at time `now` -/
+def entryOk (cfg : Cfg) (h : List Op) (now : Nat) (m : Nat) (t : VType) : Entry → Bool
   | .num K total _ =>
     match t with
     | .rate | .counter => decide (total = incSum m K h)
@@ -241,8 +265,15 @@ def entryOk (cfg : Cfg) (h : List Op) (m : Nat) (t : VType) : Entry → Bool
       | [s] => decide (some total = lastSet m s h)
       | _ => true
     | _ => true
-  | .pct _ count retained vals =>
-    if t.isPct && count == 1 then pctsOk cfg.pcts retained vals else true
+  | .pct K _ retained vals =>
+    -- "percentiles reported for a single source": demanded where the key has one source and
+    -- that source retained a sample within the last MAX_AGG_AGE seconds (an idle source may
+    -- be dropped from the aggregate)
+    if t.isPct then
+      match (distinctSrcs m h).filter (fun s => s.key = K) with
+      | [s] => if retainedRecently cfg.cap m s now h then pctsOk cfg.pcts retained vals else true
+      | _ => true
+    else true
 
 def findEntries (out : List (Nat × List Entry)) (m : Nat) : List Entry :=
   match out.find? (fun me => me.1 = m) with
@@ -257,22 +288,22 @@ def covered (cfg : Cfg) (h : List Op) (ms : List Nat) (out : List (Nat × List E
       (distinctSrcs m h).all (fun s => (findEntries out m).any (fun e => e.key = s.key))
     | _ => true)
 
-def firstBadEntry (cfg : Cfg) (h : List Op) : List (Nat × List Entry) → Option (Nat × Entry)
+def firstBadEntry (cfg : Cfg) (h : List Op) (now : Nat) : List (Nat × List Entry) → Option (Nat × Entry)
   | [] => none
   | (m, es) :: rest =>
     match typeOf cfg m with
-    | none => firstBadEntry cfg h rest
+    | none => firstBadEntry cfg h now rest
     | some t =>
-      match es.find? (fun e => !entryOk cfg h m t e) with
+      match es.find? (fun e => !entryOk cfg h now m t e) with
       | some e => some (m, e)
-      | none => firstBadEntry cfg h rest
+      | none => firstBadEntry cfg h now rest
 
 def metricOf : Op → Nat
   | .inc m _ _ => m
   | .set m _ _ => m
-  | .sample m _ _ _ => m
+  | .sample m _ _ _ _ => m
   | .get m _ => m
-  | .agg _ => 0
+  | .agg _ _ => 0
 
 def clauseOf (cfg : Cfg) (m : Nat) : Entry → String
   | .num _ _ _ => if typeOf cfg m = some .gauge then "gauge-last" else "aggregate-sum"
@@ -289,13 +320,13 @@ def specObs (cfg : Cfg) (h : List Op) (idx : Nat) (op : Op) (o : Obs) : Verdict 
         else .fail "gauge-last" [V.ofNat idx, V.ofNat m, encObs (.val v), encObs (.val (lastSet m s h))]
       | _ => .fail "shape" [V.ofNat idx]
     else .ok
-  | .agg ms, .agg out =>
-    match firstBadEntry cfg h out with
+  | .agg ms now, .agg out =>
+    match firstBadEntry cfg h now out with
     | some (m, e) =>
       .fail (clauseOf cfg m e) [V.ofNat idx, V.ofNat m, encEntry e]
     | none =>
       if covered cfg h ms out then .ok else .fail "aggregate-lost" [V.ofNat idx]
-  | .agg _, _ => .fail "shape" [V.ofNat idx]
+  | .agg _ _, _ => .fail "shape" [V.ofNat idx]
   | op, .n k =>
     let bound := (distinctSrcs (metricOf op) h).length
     if k ≤ bound then .ok
